@@ -453,6 +453,22 @@ func r15check(c *core.Ctx) {
 			}
 		}
 	}
+	// the freshness test guards acceptance: MAC verification (and with it `return 0`) is reached
+	// only through the "SQN is greater" side of that very test, whatever the other arguments are
+	if resyncEdge != nil {
+		var ifB *ssa.BasicBlock
+		for _, b := range fn.Blocks {
+			if len(b.Succs) == 2 && b.Succs[0] == resyncEdge {
+				if iff, ok := b.Instrs[len(b.Instrs)-1].(*ssa.If); ok && p.Path(iff.Cond) == "("+p.Path(cm[0].(*ssa.Call))+"<=0)" {
+					ifB = b
+				}
+			}
+		}
+		accB := cm[1].Block()
+		guarded := ifB != nil && ifB.Dominates(accB) && (ifB.Succs[1] == accB || (len(ifB.Succs[1].Preds) == 1 && ifB.Succs[1].Dominates(accB)))
+		c.Check(guarded, R, "milenage.Milenage_check:freshness-guards-accept", cm[1].Pos(), "MAC-A is verified only after SQN was found greater than the UE's",
+			"the MAC-A verification (and acceptance) can be reached without the freshness test memcmp(rxSQN, ueSQN, 6) <= 0 having been evaluated and found false: an AUTN whose SQN is not greater than the UE's (a replay) is accepted on that path")
+	}
 	c.Check(c0 && n0 == 6 && resyncEdge != nil, R, "milenage.Milenage_check:freshness", cm[0].Pos(), "resync iff memcmp(rxSQN, SQN, 6) <= 0", "freshness test must be memcmp(rxSQN, ueSQN, 6) <= 0 (all 6 octets); is memcmp(%s, %s, %d)", p.Path(a0[0]), p.Path(a0[1]), n0)
 	// resync branch: f2345(..., nil x4, ak) ; auts[i] = sqn[i]^ak[i]; f1(opc,k,rand,sqn,[0,0],nil,auts[6:]); return -2
 	okR := f2[1][3] == "nil" && f2[1][4] == "nil" && f2[1][5] == "nil" && f2[1][6] == "nil" && f2[1][7] != "nil" && f2[1][2] == "p3"
